@@ -32,6 +32,8 @@ DepsOf(name) ==
 UProg(r) == LET used == {OutOf(r).name} \cup DepsOf(OutOf(r).name) IN SelectSeq(prog, LAMBDA m : m.name \in used)
 
 Datas(o) == SelectSeq(o.resp, LAMBDA x : x.kind = "data")
+\* what a data message carries: the decimal value of a mapper, or the keys of a block-index module requested as output
+ObsPayload(d, r) == IF OutOf(r).kind = "index" /\ "keys" \in DOMAIN d THEN d.keys ELSE d.payload
 
 \* Features of a failing request computed from the cache content it started on (known-finding signatures, Appendix D):
 \* the output module's cached output exists for some segment while a store's snapshot for that segment is missing
@@ -105,16 +107,19 @@ RunFails(r, from) ==
   \o F(\A i \in DOMAIN ds : ds[i].num < r.failAt, "block_delivered_at_or_after_the_failing_block")
   \o F(\A i \in DOMAIN ds : ds[i].num >= S2 /\ ds[i].num < E, "block_outside_requested_range")
   \o F(\A i \in 1..(Len(ds) - 1) : ds[i].num < ds[i + 1].num, "not_strictly_increasing")
-  \o F(\A i \in DOMAIN ds : ds[i].num <= MaxBlock => ds[i].payload = PayloadOf(Res(ds[i].num), OutOf(r).name), "payload_differs_from_sequential_execution")
+  \o F(\A i \in DOMAIN ds : ds[i].num <= MaxBlock => ObsPayload(ds[i], r) = PayloadOf(Res(ds[i].num), OutOf(r).name), "payload_differs_from_sequential_execution")
   ELSE
      F(o.err = "", FailSig(r))
   \o F(\A i \in DOMAIN ds : ds[i].num >= S2 /\ ds[i].num < E, "block_outside_requested_range")
   \o F(\A i \in 1..(Len(ds) - 1) : ds[i].num < ds[i + 1].num, "not_strictly_increasing")
   \o F(\A i \in DOMAIN ds : ds[i].curnum = ds[i].num /\ ds[i].curid = ds[i].id, "cursor_designates_other_block")
   \o F(\A i \in DOMAIN ds : ds[i].id = Blk(ds[i].num).id, "block_id")
-  \o F(\A i \in DOMAIN ds : ds[i].num <= MaxBlock => ds[i].payload = PayloadOf(Res(ds[i].num), OutOf(r).name), "payload_differs_from_sequential_execution")
+  \o F(\A i \in DOMAIN ds : ds[i].num <= MaxBlock => ObsPayload(ds[i], r) = PayloadOf(Res(ds[i].num), OutOf(r).name), "payload_differs_from_sequential_execution")
      \* blocks may be missing only below the hand-off (production back-fill) and only when their output is empty
-  \o F(o.err # "" \/ \A n \in S2..(E - 1) : n \in nums \/ (c.prod /\ n < H /\ n <= MaxBlock /\ PayloadOf(Res(n), OutOf(r).name) = <<>>),
+     \* (a block-index module requested as output is only BUILT while back-filling - "no ReadExecOut if output type is an
+     \*  index", orchestrator/parallelprocessor.go -: nothing below the hand-off is streamed for it, by design)
+  \o F(o.err # "" \/ \A n \in S2..(E - 1) : n \in nums \/ (c.prod /\ n < H /\ n <= MaxBlock /\
+                                                       (PayloadOf(Res(n), OutOf(r).name) = <<>> \/ OutOf(r).kind = "index")),
        "block_missing")
   \o F(o.err # "" \/ ~o.hasmap \/ E > MaxBlock \/
        \A sname \in DOMAIN o.stores : LET pol == ModByName(prog, sname).body.pol IN
